@@ -1258,3 +1258,257 @@ Proof.
   intros Hq. pose proof (sent_is_written heap evs []) as H. cbn zeta in H.
   rewrite Hq in H. cbn [map] in H. now rewrite app_nil_r in H.
 Qed.
+
+(* ================================================================== *)
+(* G. the identity of a connection is the PAIR of its addresses: lookup is exact on every
+   set of pairwise distinct pairs; a derived key must be injective on pairs *)
+
+Lemma key_eqb_eq (a b : bytes * Z) : key_eqb a b = true <-> a = b.
+Proof.
+  destruct a as [ia pa], b as [ib pb]. unfold key_eqb; cbn [fst snd]. split.
+  - intros H. apply andb_true_iff in H. destruct H as [H1 H2].
+    apply eqb_bytes_true in H1. apply Z.eqb_eq in H2. congruence.
+  - intros H. inversion H; subst. apply andb_true_iff. split; [apply eqb_bytes_true; reflexivity|apply Z.eqb_refl].
+Qed.
+
+Lemma pkey_eqb_eq (a b : pkey) : pkey_eqb a b = true <-> a = b.
+Proof.
+  destruct a as [a1 a2], b as [b1 b2]. unfold pkey_eqb; cbn [fst snd]. split.
+  - intros H. apply andb_true_iff in H. destruct H as [H1 H2].
+    apply key_eqb_eq in H1. apply key_eqb_eq in H2. congruence.
+  - intros H. inversion H; subst. apply andb_true_iff. split; apply key_eqb_eq; reflexivity.
+Qed.
+
+(* the pair a registered connection was announced with *)
+Definition ckey (cs : list vconn) (j : nat) : option pkey :=
+  pair_key (vc_l (nth j cs dummy_vc)) (vc_r (nth j cs dummy_vc)).
+
+Definition keyed_reg (cs : list vconn) (reg : list nat) : Prop := Forall (fun j => ckey cs j <> None) reg.
+
+(* one step of Connections.Get, in terms of pairs *)
+Lemma get_conn_step cs j reg l r k kc :
+  ckey cs j = Some kc -> pair_key l r = Some k ->
+  get_conn cs (j :: reg) l r = if pkey_eqb kc k then GFound j else get_conn cs reg l r.
+Proof.
+  unfold ckey, pair_key. cbn [get_conn]. unfold addr_cmp.
+  destruct (addr_key (vc_l (nth j cs dummy_vc))) as [a|]; [|discriminate].
+  destruct (addr_key (vc_r (nth j cs dummy_vc))) as [b|]; [|discriminate].
+  destruct (addr_key l) as [x|]; [|discriminate].
+  destruct (addr_key r) as [y|]; [|discriminate].
+  intros H1 H2; inversion H1; inversion H2; subst kc k.
+  unfold pkey_eqb; cbn [fst snd].
+  destruct (key_eqb a x); cbn [andb]; [|reflexivity].
+  destruct (key_eqb b y); reflexivity.
+Qed.
+
+Lemma get_conn_exact cs reg : forall l r i,
+  keyed_reg cs reg -> NoDup (map (ckey cs) reg) -> In i reg ->
+  pair_key l r = ckey cs i -> get_conn cs reg l r = GFound i.
+Proof.
+  induction reg as [|j reg IH]; intros l r i Hk Hn Hi He; [contradiction Hi|].
+  inversion Hk as [|? ? Hj Hk']; subst. cbn [map] in Hn. inversion Hn as [|? ? Hnot Hn']; subst.
+  assert (Hki : ckey cs i <> None).
+  { unfold keyed_reg in Hk. rewrite Forall_forall in Hk. apply Hk, Hi. }
+  destruct (ckey cs j) as [kc|] eqn:Ej; [|now contradiction Hj].
+  destruct (pair_key l r) as [k|] eqn:Ek; [|now rewrite <- He in Hki; contradiction Hki].
+  rewrite (get_conn_step cs j reg l r k kc Ej Ek).
+  destruct (pkey_eqb kc k) eqn:Eq.
+  - apply pkey_eqb_eq in Eq. subst kc. destruct Hi as [->|Hi]; [reflexivity|].
+    exfalso. apply Hnot. rewrite He. apply in_map, Hi.
+  - destruct Hi as [->|Hi].
+    + rewrite Ej in He. inversion He; subst. 
+      assert (pkey_eqb kc kc = true) by (apply pkey_eqb_eq; reflexivity). congruence.
+    + apply IH; auto. rewrite Ek. exact He.
+Qed.
+
+Lemma get_conn_absent cs reg : forall l r,
+  keyed_reg cs reg -> pair_key l r <> None -> ~ In (pair_key l r) (map (ckey cs) reg) ->
+  get_conn cs reg l r = GNone.
+Proof.
+  induction reg as [|j reg IH]; intros l r Hk Hp Hn; [reflexivity|].
+  inversion Hk as [|? ? Hj Hk']; subst.
+  destruct (ckey cs j) as [kc|] eqn:Ej; [|now contradiction Hj].
+  destruct (pair_key l r) as [k|] eqn:Ek; [|now contradiction Hp].
+  rewrite (get_conn_step cs j reg l r k kc Ej Ek).
+  destruct (pkey_eqb kc k) eqn:Eq.
+  - apply pkey_eqb_eq in Eq. subst kc. exfalso. apply Hn. cbn [map]. left. exact Ej.
+  - apply IH; auto.
+    + rewrite Ek. discriminate.
+    + rewrite Ek. intros Hin. apply Hn. cbn [map]. right. exact Hin.
+Qed.
+
+(* a derived key that is injective on pairs finds what Connections.Get finds - in every state *)
+Lemma get_by_injective K keq kf cs reg :
+  (forall l r l' r', pair_key l r <> None -> pair_key l' r' <> None ->
+     (keq (kf l r) (kf l' r') = true <-> pair_key l r = pair_key l' r')) ->
+  forall l r, keyed_reg cs reg -> pair_key l r <> None ->
+  get_conn cs reg l r = match get_by K keq kf cs reg l r with Some i => GFound i | None => GNone end.
+Proof.
+  intros Hinj l r. induction reg as [|j reg IH]; intros Hk Hp; [reflexivity|].
+  inversion Hk as [|? ? Hj Hk']; subst.
+  destruct (ckey cs j) as [kc|] eqn:Ej; [|now contradiction Hj].
+  destruct (pair_key l r) as [k|] eqn:Ek; [|now contradiction Hp].
+  rewrite (get_conn_step cs j reg l r k kc Ej Ek). cbn [get_by].
+  assert (Hiff := Hinj (vc_l (nth j cs dummy_vc)) (vc_r (nth j cs dummy_vc)) l r).
+  unfold ckey in Ej. rewrite Ej, Ek in Hiff.
+  specialize (Hiff ltac:(discriminate) ltac:(discriminate)).
+  destruct (pkey_eqb kc k) eqn:Eq.
+  - apply pkey_eqb_eq in Eq. subst kc.
+    replace (keq _ _) with true; [reflexivity|]. symmetry. apply Hiff. reflexivity.
+  - destruct (keq _ _) eqn:Eq2.
+    + exfalso. assert (Some kc = Some k) as Hs by (apply Hiff; reflexivity). inversion Hs; subst.
+      assert (pkey_eqb k k = true) by (apply pkey_eqb_eq; reflexivity). congruence.
+    + apply IH; [exact Hk'|discriminate].
+Qed.
+
+(* ---- the state after the agent has announced a list of pairs ---- *)
+Definition vc_of (p : addr * addr) : vconn := mkVc (fst p) (snd p) [] false.
+Definition pkeys (ps : list (addr * addr)) : list (option pkey) := map (fun p => pair_key (fst p) (snd p)) ps.
+Definition keyed_pairs (ps : list (addr * addr)) : Prop := Forall (fun p => pair_key (fst p) (snd p) <> None) ps.
+
+Lemma hello_step_shape s p :
+  s_alive s = true ->
+  hello_step s p = mkSess (s_conns s ++ [vc_of p]) (s_reg s ++ [length (s_conns s)]) true (s_nudp s).
+Proof. intros Ha. unfold hello_step, serv_msg. rewrite Ha. reflexivity. Qed.
+
+Lemma announce_from ps : forall s,
+  s_alive s = true ->
+  fold_left hello_step ps s =
+    mkSess (s_conns s ++ map vc_of ps) (s_reg s ++ seq (length (s_conns s)) (length ps)) true (s_nudp s).
+Proof.
+  induction ps as [|p ps IH]; intros s Ha; cbn [fold_left map length seq].
+  - rewrite !app_nil_r. destruct s; cbn in *; subst; reflexivity.
+  - rewrite hello_step_shape by exact Ha. rewrite IH by reflexivity. cbn [s_conns s_reg s_nudp].
+    rewrite app_length. cbn [length]. rewrite <- !app_assoc. cbn [app].
+    replace (length (s_conns s) + 1)%nat with (S (length (s_conns s))) by lia. reflexivity.
+Qed.
+
+Lemma announce_shape ps : announce ps = mkSess (map vc_of ps) (seq 0 (length ps)) true 0.
+Proof. unfold announce. rewrite announce_from by reflexivity. reflexivity. Qed.
+
+Lemma map_nth_seq {A B} (f : A -> B) (d : A) (l : list A) :
+  map (fun j => f (nth j l d)) (seq 0 (length l)) = map f l.
+Proof.
+  induction l as [|x l IH]; [reflexivity|].
+  cbn [length seq map nth]. f_equal. rewrite <- seq_shift, map_map. exact IH.
+Qed.
+
+Lemma announce_ckeys ps : map (ckey (map vc_of ps)) (seq 0 (length ps)) = pkeys ps.
+Proof.
+  unfold ckey, pkeys.
+  rewrite <- (map_length vc_of ps).
+  rewrite (map_nth_seq (fun c => pair_key (vc_l c) (vc_r c)) dummy_vc (map vc_of ps)).
+  rewrite map_map. reflexivity.
+Qed.
+
+Lemma announce_keyed ps : keyed_pairs ps -> keyed_reg (map vc_of ps) (seq 0 (length ps)).
+Proof.
+  intros H. unfold keyed_reg. rewrite Forall_forall. intros j Hj.
+  apply in_seq in Hj. cbn in Hj.
+  assert (In (ckey (map vc_of ps) j) (pkeys ps)) as Hin.
+  { rewrite <- announce_ckeys. apply in_map. apply in_seq. cbn. lia. }
+  unfold pkeys in Hin. apply in_map_iff in Hin. destruct Hin as (p & Hp & Hin).
+  unfold keyed_pairs in H. rewrite Forall_forall in H. rewrite <- Hp. apply H, Hin.
+Qed.
+
+Lemma announce_ckey_nth ps i l r :
+  nth_error ps i = Some (l, r) -> ckey (map vc_of ps) i = pair_key l r.
+Proof.
+  intros H. unfold ckey.
+  assert (nth i (map vc_of ps) dummy_vc = vc_of (l, r)) as ->; [|reflexivity].
+  apply nth_error_nth. rewrite nth_error_map, H. reflexivity.
+Qed.
+
+(* for EVERY list of pairwise distinct pairs: once they are announced, a frame naming
+   pair number i (in any representation with the same [pair_key]) is looked up as
+   connection i - the one surfaced for that announcement - and no other *)
+Lemma distinct_pairs_lookup ps i l r l' r' :
+  keyed_pairs ps -> NoDup (pkeys ps) -> nth_error ps i = Some (l, r) ->
+  pair_key l' r' = pair_key l r ->
+  get_conn (s_conns (announce ps)) (s_reg (announce ps)) l' r' = GFound i.
+Proof.
+  intros Hk Hn Hi He. rewrite announce_shape. cbn [s_conns s_reg].
+  apply get_conn_exact.
+  - apply announce_keyed, Hk.
+  - rewrite announce_ckeys. exact Hn.
+  - apply in_seq. cbn. split; [lia|]. apply nth_error_Some. rewrite Hi. discriminate.
+  - rewrite (announce_ckey_nth ps i l r Hi). exact He.
+Qed.
+
+Lemma distinct_pairs_unknown ps l r :
+  keyed_pairs ps -> pair_key l r <> None -> ~ In (pair_key l r) (pkeys ps) ->
+  get_conn (s_conns (announce ps)) (s_reg (announce ps)) l r = GNone.
+Proof.
+  intros Hk Hp Hn. rewrite announce_shape. cbn [s_conns s_reg].
+  apply get_conn_absent; [apply announce_keyed, Hk|exact Hp|]. rewrite announce_ckeys. exact Hn.
+Qed.
+
+Lemma announce_conn_at ps i l r :
+  nth_error ps i = Some (l, r) -> conn_at (announce ps) i = mkVc l r [] false.
+Proof.
+  intros H. rewrite announce_shape. unfold conn_at; cbn [s_conns].
+  change (mkVc l r [] false) with (vc_of (l, r)).
+  apply nth_error_nth. rewrite nth_error_map, H. reflexivity.
+Qed.
+
+(* ... hence its data reaches exactly connection i and its eof ends exactly connection i *)
+Lemma distinct_pairs_data_eof ps i l r p :
+  keyed_pairs ps -> NoDup (pkeys ps) -> nth_error ps i = Some (l, r) ->
+  let s := announce ps in
+  (exists s', serv_msg s (MData l r p) = (s', RNone, [], Some i) /\
+     conn_at s' i = mkVc l r p false /\ (forall c, c <> i -> conn_at s' c = conn_at s c)) /\
+  (exists s', serv_msg s (MEof l r) = (s', RNone, [MEof l r], None) /\
+     conn_at s' i = mkVc l r [] true /\ (forall c, c <> i -> conn_at s' c = conn_at s c) /\
+     s_reg s' = remove_first i (s_reg s)).
+Proof.
+  intros Hk Hn Hi s.
+  pose proof (distinct_pairs_lookup ps i l r l r Hk Hn Hi eq_refl) as Hg. fold s in Hg.
+  pose proof (announce_conn_at ps i l r Hi) as Hc. fold s in Hc.
+  assert (Ha : s_alive s = true) by (unfold s; rewrite announce_shape; reflexivity).
+  assert (Hr : (i < length (s_conns s))%nat).
+  { apply closed_in_range. rewrite Hc. reflexivity. }
+  split.
+  - assert (routed s (MData l r p) = Some (i, p)) as Hrt.
+    { unfold routed. rewrite Ha, Hg, Hc. reflexivity. }
+    destruct (data_routed s l r p i Hrt) as (s' & E1 & E2 & E3 & _).
+    exists s'. rewrite Hc in E2. cbn [vc_l vc_r vc_buf app] in E2. auto.
+  - destruct (eof_closes_exactly s l r i Ha Hg) as (s' & E1 & E2 & E3 & E4 & _).
+    exists s'. rewrite Hc in E1. cbn [vc_closed vc_l vc_r] in E1.
+    specialize (E3 Hr). rewrite Hc in E3. auto.
+Qed.
+
+(* ANY derived key that gives two different pairs the same key misroutes: announce the
+   two pairs, address the second - Connections.Get finds connection 1, the keyed lookup
+   finds connection 0 *)
+Lemma collapsing_key_misroutes K keq kf l1 r1 l2 r2 :
+  pair_key l1 r1 <> None -> pair_key l2 r2 <> None -> pair_key l1 r1 <> pair_key l2 r2 ->
+  keq (kf l1 r1) (kf l2 r2) = true ->
+  let s := announce [(l1, r1); (l2, r2)] in
+  get_conn (s_conns s) (s_reg s) l2 r2 = GFound 1%nat /\
+  get_by K keq kf (s_conns s) (s_reg s) l2 r2 = Some 0%nat.
+Proof.
+  intros H1 H2 Hd Hc s. split.
+  - apply (distinct_pairs_lookup [(l1, r1); (l2, r2)] 1 l2 r2 l2 r2); try reflexivity.
+    + repeat constructor; assumption.
+    + unfold pkeys; cbn [map fst snd]. constructor; [|constructor; [intros []|constructor]].
+      intros [H|[]]. apply Hd. symmetry. exact H.
+  - unfold s. rewrite announce_shape. cbn [s_conns s_reg length seq map get_by nth vc_of vc_l vc_r fst snd].
+    rewrite Hc. reflexivity.
+Qed.
+
+(* the two address texts glued together without a separator give two different pairs the
+   same text: one sensor address with a service on 222 and on 2222, two visitors with
+   the same source port *)
+Definition cw_l1 : addr := ATcp [10;0;0;5]%N 222.
+Definition cw_r1 : addr := ATcp [210;1;1;1]%N 40000.
+Definition cw_l2 : addr := ATcp [10;0;0;5]%N 2222.
+Definition cw_r2 : addr := ATcp [10;1;1;1]%N 40000.
+
+Lemma concat_key_collides :
+  pair_key cw_l1 cw_r1 <> None /\ pair_key cw_l2 cw_r2 <> None /\
+  pair_key cw_l1 cw_r1 <> pair_key cw_l2 cw_r2 /\
+  concat_key cw_l1 cw_r1 = concat_key cw_l2 cw_r2 /\
+  (* "10.0.0.5:222210.1.1.1:40000" *)
+  concat_key cw_l1 cw_r1 =
+    [49;48;46;48;46;48;46;53;58;50;50;50;50;49;48;46;49;46;49;46;49;58;52;48;48;48;48]%N.
+Proof. vm_compute. repeat split; discriminate. Qed.
